@@ -1,5 +1,209 @@
 package c14
 
-import "verif/harness/internal/core"
+import (
+	"bytes"
+	"encoding/json"
+	"fmt"
+	"sort"
+	"strings"
+	"time"
 
-func runJudge(c *core.Ctx) (map[string]any, error) { return nil, nil }
+	"verif/harness/internal/core"
+	"verif/harness/internal/tlc"
+)
+
+// walk records every own property of every library object of a configuration.
+func walk(cfg Config, lines []*Line) ([]map[string]any, error) {
+	s, err := open(cfg, lines)
+	if err != nil {
+		return nil, err
+	}
+	var listed, inst []string
+	for _, l := range lines {
+		if l.K == "obj" {
+			listed = append(listed, l.ID)
+			if l.Grp == "inst" {
+				inst = append(inst, l.ID)
+			}
+		}
+	}
+	out, err := s.call("WALK", listed, inst, map[string]any{})
+	if err != nil && strings.HasPrefix(err.Error(), "GO PANIC") {
+		// finding D14_gopd_panics_on_internal_accessor: on the objects for which the deviating specification
+		// expects the panic, the properties outside the table are recorded without descriptor
+		if s, err = open(cfg, lines); err != nil {
+			return nil, err
+		}
+		no := map[string]any{}
+		for _, l := range lines {
+			if l.K == "obj" && len(l.Dev) > 0 {
+				var d struct {
+					Reflect string `json:"reflect"`
+				}
+				json.Unmarshal(l.Dev[0], &d)
+				if d.Reflect == "go-panic" {
+					names := make([]any, len(l.Names))
+					for i, n := range l.Names {
+						names[i] = n
+					}
+					no[l.ID] = names
+				}
+			}
+		}
+		out, err = s.call("WALK", listed, inst, no)
+	}
+	if err != nil {
+		return nil, err
+	}
+	var evs []map[string]any
+	if err := json.Unmarshal([]byte(out), &evs); err != nil {
+		return nil, fmt.Errorf("WALK output: %v", err)
+	}
+	for _, e := range evs {
+		e["cfg"] = cfg.Name
+	}
+	return evs, nil
+}
+
+// runJudge: direction code -> specification (spec/C14Judge.tla).
+func runJudge(c *core.Ctx, lines []*Line) (map[string]any, error) {
+	cfgs := []Config{{Name: "fresh"}, {Name: "underscore", Underscore: true}, {Name: "copy-of-fresh", Copy: "before"}}
+	if c.Thorough() {
+		cfgs = append(cfgs, Config{Name: "copy-of-underscore", Underscore: true, Copy: "before"},
+			Config{Name: "fresh-copied-with-registry", Copy: "after"}, Config{Name: "copy-of-copy-of-fresh", Copy: "twice"})
+	}
+	var all []map[string]any
+	perCfg := map[string]int{}
+	for _, cf := range cfgs {
+		evs, err := walk(cf, lines)
+		if err != nil {
+			return nil, fmt.Errorf("walk of %s: %v", cf.Name, err)
+		}
+		// the walk is deterministic: a second runtime of the configuration gives the same record
+		evs2, err := walk(cf, lines)
+		if err != nil {
+			return nil, err
+		}
+		a, _ := json.Marshal(evs)
+		b, _ := json.Marshal(evs2)
+		if !bytes.Equal(a, b) {
+			c.Violate(fmt.Sprintf("two runtimes of configuration %s give different library walks", cf.Name), map[string]any{"config": cf})
+		}
+		perCfg[cf.Name] = len(evs)
+		all = append(all, evs...)
+	}
+	// binding self-test of the judge: corrupted copies of accepted records (configuration "selftest") must be rejected
+	nSelf := 0
+	for _, e := range all {
+		if e["cfg"] != "fresh" {
+			continue
+		}
+		cp := func(mut func(m map[string]any)) {
+			b, _ := json.Marshal(e)
+			var m map[string]any
+			json.Unmarshal(b, &m)
+			m["cfg"] = "selftest"
+			mut(m)
+			all = append(all, m)
+			nSelf++
+		}
+		switch {
+		case e["ev"] == "prop" && e["o"] == "Array.prototype" && e["n"] == "push":
+			cp(func(m map[string]any) { m["obs"].(map[string]any)["attrs"] = []any{"T", "T", "T"}; m["e"] = true }) // enumerable method
+			cp(func(m map[string]any) { m["n"] = "addition"; m["e"] = true })                                        // enumerable addition to a prototype
+		case e["ev"] == "prop" && e["o"] == "Math.trunc" && e["n"] == "length":
+			cp(func(m map[string]any) { m["obs"].(map[string]any)["attrs"] = []any{"T", "F", "T"} }) // writable length of an unlisted function
+		case e["ev"] == "obj" && e["id"] == "Math.trunc":
+			cp(func(m map[string]any) { m["obs"].(map[string]any)["proto"] = "Object.prototype" })
+		case e["ev"] == "obj" && e["id"] == "JSON":
+			cp(func(m map[string]any) { m["obs"].(map[string]any)["cls"] = "Object" })
+		}
+	}
+	var buf bytes.Buffer
+	for _, e := range all {
+		b, err := json.Marshal(e)
+		if err != nil {
+			return nil, err
+		}
+		buf.Write(b)
+		buf.WriteByte('\n')
+	}
+	type verdict struct {
+		I         int             `json:"i"`
+		V         string          `json:"v"`
+		Rule      string          `json:"rule"`
+		Want      json.RawMessage `json:"want"`
+		Ev        json.RawMessage `json:"ev"`
+		Cfg       string          `json:"cfg"`
+		Unseen    [][]string      `json:"unseen"`
+		UnseenDev [][]string      `json:"unseen_dev"`
+		Seen      int             `json:"seen"`
+	}
+	var vs []verdict
+	var perr error
+	res, err := tlc.Run(tlc.Opts{SpecDir: c.SpecDir, Module: "C14Judge", Cfg: cfgText(c), Workers: c.Workers, Timeout: 10 * time.Minute,
+		Files: map[string][]byte{"trace.ndjson": buf.Bytes()}},
+		func(p []byte) {
+			var v verdict
+			if e := json.Unmarshal(p, &v); e != nil && perr == nil {
+				perr = fmt.Errorf("bad verdict line: %v: %s", e, p[:min(len(p), 300)])
+			}
+			vs = append(vs, v)
+		})
+	if err != nil {
+		return nil, err
+	}
+	if perr != nil {
+		return nil, perr
+	}
+	sort.Slice(vs, func(i, j int) bool { return vs[i].I < vs[j].I })
+	nDev, nBad, nComplete, nSelfRejected := 0, 0, 0, 0
+	var devAt []string
+	for _, v := range vs {
+		var evc struct {
+			Cfg string
+		}
+		json.Unmarshal(v.Ev, &evc)
+		if evc.Cfg == "selftest" || v.Cfg == "selftest" {
+			if v.V == "bad" && v.Cfg == "" {
+				nSelfRejected++
+			}
+			continue
+		}
+		switch v.V {
+		case "dev":
+			nDev++
+			c.Hit("judge: deviation")
+			var ev struct {
+				Cfg, O, N, ID string
+			}
+			json.Unmarshal(v.Ev, &ev)
+			if ev.Cfg == "fresh" {
+				devAt = append(devAt, strings.TrimSuffix(ev.O+ev.ID+" . "+ev.N, " . "))
+			}
+		case "complete":
+			nComplete++
+			nDev += len(v.UnseenDev)
+		case "bad":
+			nBad++
+			if v.Cfg != "" {
+				c.Violate(fmt.Sprintf("[judge, %s] properties of the ES5 table that the runtime does not have: %v", v.Cfg, v.Unseen),
+					map[string]any{"config": v.Cfg, "unseen": v.Unseen})
+			} else {
+				c.Violate(fmt.Sprintf("[judge] %s: recorded %s ; specification %s", v.Rule, trunc(string(v.Ev), 400), trunc(string(v.Want), 300)),
+					map[string]any{"record": v.Ev, "rule": v.Rule, "expected": v.Want})
+			}
+		default:
+			return nil, fmt.Errorf("unknown verdict %q", v.V)
+		}
+	}
+	if nComplete+0 != len(cfgs) && nBad == 0 {
+		return nil, fmt.Errorf("judge: %d completeness verdicts for %d configurations", nComplete, len(cfgs))
+	}
+	if nSelf < 4 || nSelfRejected != nSelf {
+		return nil, fmt.Errorf("judge self-test: %d of %d corrupted records were rejected", nSelfRejected, nSelf)
+	}
+	return map[string]any{"records_judged": len(all) - nSelf, "selftest_corrupted_records_rejected": nSelfRejected, "records_per_configuration": perCfg, "accepted_under_known_deviation": nDev,
+		"rejected": nBad, "deviations_seen_on_fresh": devAt,
+		"tlc": map[string]any{"generated": res.Generated, "distinct": res.Distinct, "wall_s": res.Wall}}, nil
+}
